@@ -33,6 +33,10 @@ class Box(Generic[T_Box]):
 	def each(self, f: Callable[[T_Box], None]) -> None:
 		f(self.value)
 
+class IntBox(Box[int]):
+	def size(self) -> int:
+		return 1
+
 class Item:
 	n: int
 
@@ -48,11 +52,15 @@ def make(n: int) -> Item:
 
 COUNT: int = 3
 '''
-M1 = '''from c04pool.m0 import Item, make, COUNT, Box
+M1 = '''from c04pool.m0 import Item, make, COUNT, Box, IntBox
 
 def run_box1() -> None:
 	b = Box[int](1)
 	b.each(lambda e: print(e))
+
+def read_box(b: IntBox) -> int:
+	# (a property declared with the type variable of the generic base class, read through the concrete subclass)
+	return b.value
 
 class Holder:
 	item: Item
